@@ -8,6 +8,7 @@ import time
 
 from vf import spec as S, observe as O, bootstrap as B, drivers as D
 from vf import materialize as MZ, engine_b as EB, findings, acceptor
+from vf import mutlang as ML
 from vf.checks import common, c07, c03
 
 
@@ -154,6 +155,88 @@ def raw_sql_scenario(coll, stats):
                      'raw-sql:%s' % name, replay, {'rows': str(left)[:200]})
 
 
+def sql_file_scenario(coll, stats):
+    """An app whose pending evolutions mix SQL files and Python modules
+    (in both orders, generic and database-specific file names): every
+    evolution a pair names must have run, and its effect must be in the
+    database."""
+    from django_evolution import management
+    start = c03.narrow_start()
+    add_n1 = ML.to_real(['AddField', 'Item', 'n1', 'Int', {'null': True},
+                         None])
+    chg_a = ML.to_real(['ChangeField', 'Item', 'a', {'max_length': 30},
+                        None, None])
+    sql = "UPDATE va_item SET b = 41 WHERE b IS NULL;\n"
+    variants = [
+        ('sql-then-python', ['fill', 'widen'], {'widen': [chg_a]},
+         {'fill.sql': sql}),
+        ('python-then-sql', ['widen', 'fill'], {'widen': [chg_a]},
+         {'fill.sql': sql}),
+        ('db-specific-sql-then-python', ['fill', 'widen'],
+         {'widen': [chg_a]}, {'default_fill.sql': sql}),
+        ('sql-between-pythons', ['addn', 'fill', 'widen'],
+         {'addn': [add_n1], 'widen': [chg_a]}, {'fill.sql': sql}),
+    ]
+    final = start
+    for name, seq, mods, files in variants:
+        spec = S.clone(start)
+        if 'addn' in seq:
+            spec = ML.apply(spec, 'va', ['AddField', 'Item', 'n1', 'Int',
+                                         {'null': True}, None])
+        spec = ML.apply(spec, 'va', ['ChangeField', 'Item', 'a',
+                                     {'max_length': 30}, None, None])
+        MZ.install(start, evolutions={'va': {'SEQUENCE': [],
+                                             'modules': {}}})
+        B.fresh_db('default')
+        B.reset_globals()
+        EB.upgrade('D2')
+        from vf import rows as RW
+        RW.populate(start, 'R2', 'default')
+        MZ.install(spec, evolutions={'va': {
+            'SEQUENCE': seq,
+            'modules': {l: {'MUTATIONS': m} for l, m in mods.items()},
+            'sql_files': files}})
+        B.reset_globals()
+        seq_ = [0]
+        tracer = O.Tracer('default', seq=seq_)
+        lock = management._evolve_lock
+        with O.SignalLog(seq_) as log:
+            res = EB.upgrade('D2', tracer=tracer)
+        stats['extra_runs'] += 1
+        replay = {'scenario': 'sql-files', 'variant': name}
+        if not res.ok:
+            coll.add('C17|sql-file-run-fails|%s|%s' % (res.exc_type, name),
+                     replay, {'error': str(res.exc)[:200]})
+            continue
+        for clause, detail in acceptor.check(
+                log.events, tracer.statements, 'ok', lock,
+                management._evolve_lock, saved=True):
+            coll.add('C17|%s|sql-files:%s' % (clause, name), replay, detail)
+        announced = sorted(set(
+            tuple(e) for (_s, nm, p) in log.events
+            if nm == 'applied_evolution' for e in p.get('evolutions', [])))
+        if announced != sorted(('va', l) for l in seq):
+            coll.add('C17|payload-evolutions-wrong|sql-files:%s' % name,
+                     replay, {'announced': announced})
+        cols = dict((c[0], c[1]) for c in O.table_dump(
+            'va_item', 'default')['columns'])
+        missing = []
+        if cols.get('a') != 'varchar(30)':
+            missing.append('widen')
+        if 'addn' in seq and 'n1' not in cols:
+            missing.append('addn')
+        if any(any(v == (None, 'null') for v in r[1:2])
+               for r in O.row_dump('default')['va_item']['rows']):
+            pass
+        nulls = [r for r in O.row_dump('default')['va_item']['rows']
+                 if (None, 'null') in r[:2]]
+        if nulls:
+            missing.append('fill')
+        if missing:
+            coll.add('C17|announced-as-applied-but-not-in-the-database|'
+                     'sql-files:%s' % name, replay, {'missing': missing})
+
+
 def split_batch_scenario(coll, stats):
     """An app whose two pending evolutions are forced into different
     batches by a migration dependency: the evolutions carried by each
@@ -280,6 +363,7 @@ def run(tier, seed, confirm=True):
     extra_scenarios(coll, stats)
     split_batch_scenario(coll, stats)
     raw_sql_scenario(coll, stats)
+    sql_file_scenario(coll, stats)
     handover_scenarios(coll, stats, tier)
     coverage = {
         'evaluations': total['runs'] + stats['extra_runs'],
